@@ -7,9 +7,17 @@
       declarations, inner wins)                                   — `lazy_nsmaps_eq_inScope`
       and the eager loader assigns the same maps               — `eager_nsmaps_eq_lazy`, `eager_nsmaps_eq_inScope`
       (finding C06-F4, the eager loop without a pop in its 'end' branch, is fixed by commit 6d25df9)
-    * lazy iteration yields every element exactly once             — `iter_lazy_order`, `iter_lazy_perm`
-      (full statement "in the order of the loaded tree" is false for the code as it is: below the lazy depth
-       the order is reversed post-order, witness `wIt`, finding C06-F11; `iter_lazy_order` is the exact law)
+    * lazy iteration yields every element exactly once, in document order, for the loop repaired by
+      notes/fixes/C06-iter-document-order.patch                    — `iter_lazy_order`, `iter_lazy_doc`
+      (for the loop as it is in /repo without that patch the full statement "in the order of the loaded tree" is
+       false: below the lazy depth the order is reversed post-order, finding C06-F11 —
+       `iter_lazy_order_pinned` is the exact law, `iter_lazy_perm_pinned` the multiset,
+       `iter_lazy_order_pinned_counterexample` the witness; the harness detects which loop /repo has)
+    * pruning (`_clear`, thin and not thin) never removes what is still to be yielded: every element yielded by
+      `iter_depth` is the complete subtree of the document          — `live_chunks_complete`
+      the pruned root yielded last is the document cut at the lazy depth — `live_nonthin_yields`, `live_final_nonthin`
+      what IS lost in thin mode: the preceding siblings but the last one, hence the positions of error paths
+      (finding C06-F12)      — `live_thin_yields`, `thin_position_partial`, `thin_position_counterexample`
     * the chunk selectors yield exactly the elements of the lazy depth in document order with the right
       ancestors                                                    — `iter_depth_spec`, `iterfind_spec`
     * lazy validation = eager validation as a multiset, with an exact order law, when every chunk is
@@ -21,7 +29,9 @@
       the data above the cut                                       — `depth_cut_prefix`, `decode_cut_prune`
 -/
 import XsVerif.Model.Lazy
+import XsVerif.Model.LazyLive
 import XsVerif.Lemmas.Lazy
+import XsVerif.Lemmas.LazyLive
 
 namespace XsVerif.Props.C06
 set_option linter.unusedSimpArgs false
@@ -66,21 +76,47 @@ example : unpoppedNsmaps wNs
 
 /-! ### iteration -/
 
-/-- Lazy `iter` (no tag filter) yields the elements in exactly the order `lazyOrder`: document order above
-    the lazy depth, and below it each chunk followed by its descendants in reversed post-order. -/
-theorem iter_lazy_order (d : Nat) (t : Tree) : iterRun d allTags t = lazyOrder d 0 t := by
+/-- Lazy `iter` (no tag filter) AS IT IS IN /repo WITHOUT notes/fixes/C06-iter-document-order.patch yields the
+    elements in exactly the order `lazyOrder`: document order above the lazy depth, and below it each chunk followed
+    by its descendants in reversed post-order (finding C06-F11). -/
+theorem iter_lazy_order_pinned (d : Nat) (t : Tree) : iterRun d allTags t = lazyOrder d 0 t := by
   unfold iterRun
   rw [iter_top d t 0 [] (Nat.zero_le _)]
   simp
 
 /-- …hence every element of the document is yielded exactly once (same multiset as the loaded tree). -/
-theorem iter_lazy_perm (d : Nat) (t : Tree) : ((iterRun d allTags t).map Prod.fst).Perm (preorder t) := by
-  rw [iter_lazy_order]
+theorem iter_lazy_perm_pinned (d : Nat) (t : Tree) : ((iterRun d allTags t).map Prod.fst).Perm (preorder t) := by
+  rw [iter_lazy_order_pinned]
   exact lazyOrder_perm d t 0
 
 def wIt : Tree := .node 0 "r" [] [.node 1 "a" [] [.node 2 "b" [] [.node 3 "c" [] []], .node 4 "b2" [] []]]
 
-example : (iterRun 1 allTags wIt).map Prod.fst = [0, 1, 4, 2, 3] ∧ preorder wIt = [0, 1, 2, 3, 4] := by decide
+/-- FULL statement wanted by the property: the lazy iterator yields the elements in the order of the loaded tree
+    (`preorder`).  False for the loop of /repo without the patch (finding C06-F11): -/
+theorem iter_lazy_order_pinned_counterexample :
+    (iterRun 1 allTags wIt).map Prod.fst = [0, 1, 4, 2, 3] ∧ preorder wIt = [0, 1, 2, 3, 4] := by decide
+
+/-- The repaired loop (`yield from node.iter(tag)` at the lazy depth, notes/fixes/C06-iter-document-order.patch; the
+    tree builder and `_clear` with the root-less `ancestors` of `iter` are part of the model): incomplete elements
+    above the lazy depth, a full element at it, its descendants after it, all in document order; for every tree,
+    every lazy depth ≥ 1, thin or not. -/
+theorem iter_lazy_order (th : Bool) (d : Nat) (hd : 1 ≤ d) (t : Tree) :
+    (liRun th d allTags t).out = docOrder d 0 t := by
+  obtain ⟨i, tg, ds, cs⟩ := t
+  unfold liRun
+  rw [foldl_events_node', TB.init, li_startNs, li_endNs]
+  have h0 : 0 < d := hd
+  simp only [liStep, TB.ev, h0, decide_true, allTags, Bool.and_self, if_true, List.nil_append, Nat.zero_add]
+  obtain ⟨p1, ps1, nk1, hy, hlen⟩ := li_topF th d cs 1 ⟨i, tg, ds, []⟩ [] 1 false [(i, Kind.incomplete)] hd
+  rw [hy]
+  simp [liStep, h0, docOrder]
+
+/-- …which is the order of the loaded tree: the property clause at full strength for the repaired loop. -/
+theorem iter_lazy_doc (th : Bool) (d : Nat) (hd : 1 ≤ d) (t : Tree) :
+    (liRun th d allTags t).out.map Prod.fst = preorder t := by
+  rw [iter_lazy_order th d hd, docOrder_perm]
+
+example : (liRun true 1 allTags wIt).out.map Prod.fst = [0, 1, 2, 3, 4] := by decide
 
 /-- `iter_depth(mode)` at lazy depth `d ≥ 1`: the elements at depth `d` in document order, each with the
     chain of its ancestors (modes 1, 2, 4, 5), the root before (mode 5) and after (modes 3, 4, 5). -/
@@ -114,6 +150,129 @@ theorem iterfind_spec (pd : Nat) (t : Tree) : iterfindRun pd t = chunksAt pd [] 
   unfold iterfindRun
   rw [ifind_sub pd t 0 [] []]
   simp
+
+/-! ### pruning: what `iter_depth` yields at the moment it yields it -/
+
+/-- Not thin (modes 3-5, or `thin_lazy=False`), lazy depth `d ≥ 1`: the elements of the lazy depth are yielded
+    complete, in document order, each with ALL its preceding siblings still in the tree (so that the positions of
+    paths are those of the document); the root yielded last (modes 3-5) is the document cut at the lazy depth. -/
+theorem live_nonthin_yields (th : Bool) (mode d : Nat) (hd : 1 ≤ d) (hth : (decide (mode ≤ 2) && th) = false)
+    (t : Tree) :
+    (ldRun th mode d t).out.map LYield.core
+      = (if mode = 5 then [(stub t, [])] else [])
+        ++ (if mode ≠ 3 then sibsAt keepAll d [] t else [])
+        ++ (if 2 < mode then [(cutTree d t, [])] else [])
+    ∧ ldFinal th mode d t = some (cutTree d t) := by
+  obtain ⟨i, tg, ds, cs⟩ := t
+  obtain ⟨k, hk⟩ : ∃ k, d = k + 1 := ⟨d - 1, by omega⟩
+  subst hk
+  unfold ldFinal ldRun
+  rw [foldl_events_node', TB.init, ld_startNs, ld_endNs]
+  have hstart : ldStep th mode (k + 1) ⟨0, ⟨[], [] ++ ds, 0, false⟩, []⟩ (.start i tg)
+      = ⟨1, ⟨[⟨i, tg, ds, []⟩], [], 1, false⟩, if mode = 5 then [⟨.node i tg ds [], [], 1⟩] else []⟩ := by
+    simp [ldStep, TB.ev]
+  rw [hstart]
+  obtain ⟨ys, hy, hc⟩ := ld_ntF th mode (k + 1) hth cs 1 ⟨i, tg, ds, []⟩ [] 1 false
+    (if mode = 5 then [⟨.node i tg ds [], [], 1⟩] else []) (Nat.le_refl _) hd
+  rw [hy]
+  have hk1 : k + 1 - 1 = k := by omega
+  rw [hk1] at hc
+  simp only [List.map_nil] at hc
+  simp only [ldStep, TB.ev, Nat.sub_self, beq_self_eq_true, if_true, List.map_append, hc,
+    Frame.close, List.nil_append, cutTree, sibsAt, stub]
+  constructor
+  · by_cases h5 : mode = 5
+    · subst h5; simp [LYield.core, hc]
+    · by_cases h2 : 2 < mode <;> simp [h5, h2, LYield.core, hc]
+  · by_cases h2 : 2 < mode <;> simp [h2, Frame.close]
+
+/-- …in particular (the final state of the tree) `live_final_nonthin`: after the iteration the root holds exactly
+    the document cut at the lazy depth — what the depth-limited validation of the root (`cutT`) works on. -/
+theorem live_final_nonthin (th : Bool) (mode d : Nat) (hd : 1 ≤ d) (hth : (decide (mode ≤ 2) && th) = false)
+    (t : Tree) : ldFinal th mode d t = some (cutTree d t) :=
+  (live_nonthin_yields th mode d hd hth t).2
+
+/-- Thin (modes 1, 2 of a resource with `thin_lazy=True`, the default; lazy decoding uses mode 2): the elements of
+    the lazy depth are still yielded complete and in document order, but only the IMMEDIATELY preceding sibling is
+    still in the tree when an element is yielded (finding C06-F12: positions of error paths are computed from
+    these). -/
+theorem live_thin_yields (th : Bool) (mode d : Nat) (hd : 1 ≤ d) (hth : (decide (mode ≤ 2) && th) = true)
+    (t : Tree) :
+    (ldRun th mode d t).out.map LYield.core = sibsAt keepOne d [] t := by
+  obtain ⟨i, tg, ds, cs⟩ := t
+  obtain ⟨k, hk⟩ : ∃ k, d = k + 1 := ⟨d - 1, by omega⟩
+  subst hk
+  have hm : mode ≤ 2 := by simp at hth; exact hth.1
+  have h5 : (mode == 5) = false := by simp; omega
+  have h2 : ¬ (2 < mode) := by omega
+  unfold ldRun
+  rw [foldl_events_node', TB.init, ld_startNs, ld_endNs]
+  have hstart : ldStep th mode (k + 1) ⟨0, ⟨[], [] ++ ds, 0, false⟩, []⟩ (.start i tg)
+      = ⟨1, ⟨[⟨i, tg, ds, []⟩], [], 1, false⟩, []⟩ := by
+    simp [ldStep, TB.ev, h5]
+  rw [hstart]
+  obtain ⟨p1, ps1, nk1, ys, hy, hlen, hc, _⟩ := ld_thF th mode (k + 1) hth cs 1 ⟨i, tg, ds, []⟩ [] 1 false []
+    (Nat.le_refl _) hd
+  rw [hy]
+  have hk1 : k + 1 - 1 = k := by omega
+  rw [hk1] at hc
+  simp only [List.map_nil] at hc
+  match ps1, hlen with
+  | [], _ =>
+    simp only [ldStep, TB.ev, Nat.sub_self, beq_self_eq_true, if_true, h2, if_false, List.nil_append, hc, sibsAt]
+
+/-- "Pruning never removes a node that is still to be yielded": in modes 1 and 2, thin or not, at every lazy
+    depth, the yielded elements are exactly the complete subtrees of the document at that depth, in document order. -/
+theorem live_chunks_complete (th : Bool) (mode d : Nat) (hd : 1 ≤ d) (hm : mode ≤ 2) (t : Tree) :
+    (ldRun th mode d t).out.map LYield.elem = treesAt d t := by
+  have h5 : mode ≠ 5 := by omega
+  have h3 : mode ≠ 3 := by omega
+  have h2 : ¬ (2 < mode) := by omega
+  have hcore : ∀ l : List LYield, l.map LYield.elem = (l.map LYield.core).map Prod.fst := by
+    intro l; simp [LYield.core, Function.comp_def]
+  rw [hcore]
+  cases hth : (decide (mode ≤ 2) && th)
+  · rw [(live_nonthin_yields th mode d hd hth t).1]
+    simp [h5, h3, h2, sibsAt_trees]
+  · rw [live_thin_yields th mode d hd hth t, sibsAt_trees]
+
+def wItems : Tree :=
+  .node 0 "root" [] [.node 1 "item" [] [], .node 2 "item" [] [], .node 3 "item" [] [.node 4 "v" [] []],
+                     .node 5 "item" [] []]
+
+example : (ldRun true 2 1 wItems).out.map (fun y => (preorder y.elem, y.inner))
+    = [([1], []), ([2], [1]), ([3, 4], [2]), ([5], [3])] := by decide
+
+/-- What the thin tree still gives for positions: the position computed from the remembered siblings (`keepOne`:
+    only the last one) is right whenever no EARLIER sibling has the tag — stated on the two memories:
+    for a list of siblings and any tag, counting over the last remembered sibling never exceeds counting over all
+    of them, and they agree when the forgotten ones (`all.dropLast`) do not carry the tag. -/
+theorem thin_position_partial (tagOf : Nat → String) (tg : String) (all : List Nat)
+    (hno : ∀ j ∈ all.dropLast, (tagOf j == tg) = false) :
+    position tagOf tg (all.drop (all.length - 1)) = position tagOf tg all := by
+  unfold position
+  congr 2
+  induction all with
+  | nil => rfl
+  | cons a rest ih =>
+    cases rest with
+    | nil => simp
+    | cons b rest' =>
+      have ha : (tagOf a == tg) = false := hno a (by simp)
+      have := ih (fun j hj => hno j (by simp [hj]))
+      simp only [List.length_cons, Nat.add_sub_cancel] at this ⊢
+      rw [List.filter_cons, ha]
+      simp only [Bool.false_eq_true, if_false]
+      rw [← this]
+      simp
+
+/-- FULL statement wanted by the property: the positions in the paths of errors are those of the document
+    (`keepAll`).  False for a thin resource (finding C06-F12): the 3rd and the 4th `item` are both at position 2. -/
+theorem thin_position_counterexample :
+    let tagOf := fun j => if j = 4 then "v" else if j = 0 then "root" else "item"
+    ((ldRun true 2 1 wItems).out.map fun y => position tagOf y.elem.tag y.inner) = [1, 2, 2, 2] ∧
+    ((ldRun false 2 1 wItems).out.map fun y => position tagOf y.elem.tag y.inner) = [1, 2, 3, 4] := by
+  decide
 
 /-! ### validation: depth cut, chunks, order law -/
 
@@ -158,6 +317,45 @@ theorem lazy_errors_law (v : Val D E) (static created : Tree → Option D) (k : 
   have := hloc p hp
   simp only [chunkF, this, govPick]
 
+/-- The boundary of the `Local` hypothesis, part 1 (no hypothesis at all): whatever declaration the lazy driver
+    picks for the chunks, the errors owned ABOVE the lazy depth and the reference errors are those of the eager
+    run, in the eager order; only the block of the chunks depends on the picked declarations. -/
+theorem lazy_errors_split (v : Val D E) (static created : Tree → Option D) (k : Nat) (hk : 1 ≤ k) (d : D)
+    (t : Tree) (krefs idrefs : List E) :
+    lazyErrors v static created k d t krefs idrefs
+      = ((chunkErrs v (lazyPick static created) k [] (some d) t).map Prod.snd)
+        ++ (((eagerT v [] d t).filter (fun e => decide (e.1.length < k))).map Prod.snd)
+        ++ idrefs ++ krefs := by
+  unfold lazyErrors
+  rw [depth_cut_prefix v d t k hk]
+
+/-- part 2: what the order law needs is weaker than `Local` — each chunk has to produce, under the declaration
+    picked by the lazy driver, the errors it produces under its governing declaration (true e.g. for a
+    substitution-group member validated as a head of the same type).  These are the error kinds that are a function
+    of (declaration, subtree): content model, attributes, simple-type values.  Document-wide kinds (ID/IDREF tables,
+    key scopes opened above the lazy depth) are the parameters `idrefs`/`krefs` of the model and are NOT covered:
+    findings C06-F8, C06-F9 show where the real code loses them. -/
+def LocalErr (v : Val D E) (static created : Tree → Option D) (k : Nat) (d : D) (t : Tree) : Prop :=
+  ∀ p ∈ chunkPairs v k [] (some d) t, chunkF v (lazyPick static created) p = chunkF v govPick p
+
+theorem local_imp_localErr (v : Val D E) (static created : Tree → Option D) (k : Nat) (d : D) (t : Tree)
+    (h : Local v static created k d t) : LocalErr v static created k d t := by
+  intro p hp
+  simp only [chunkF, h p hp, govPick]
+
+theorem lazy_errors_law_weak (v : Val D E) (static created : Tree → Option D) (k : Nat) (hk : 1 ≤ k) (d : D)
+    (t : Tree) (krefs idrefs : List E) (hloc : LocalErr v static created k d t) :
+    lazyErrors v static created k d t krefs idrefs
+      = (((eagerT v [] d t).filter (fun e => !decide (e.1.length < k))).map Prod.snd)
+        ++ (((eagerT v [] d t).filter (fun e => decide (e.1.length < k))).map Prod.snd)
+        ++ idrefs ++ krefs := by
+  rw [lazy_errors_split v static created k hk]
+  have h2 := deep_eq_chunks v t k [] d
+  simp only [List.length_nil, Nat.zero_add] at h2
+  rw [h2, chunkErrs_def, chunkErrs_def]
+  congr 4
+  exact flatMap_congr' _ _ _ hloc
+
 /-- Under `Local` the lazy run reports the same multiset of errors as the eager run. -/
 theorem lazy_errors_perm (v : Val D E) (static created : Tree → Option D) (k : Nat) (hk : 1 ≤ k) (d : D)
     (t : Tree) (krefs idrefs : List E) (hloc : Local v static created k d t) :
@@ -185,6 +383,17 @@ example : Local wVal (fun _ => some 1) (fun _ => none) 1 0 wDoc := by
   intro p hp
   simp [chunkPairs, chunkPairsF, wDoc] at hp
   rcases hp with rfl | rfl <;> rfl
+
+/- `LocalErr` is strictly weaker than `Local`: the static lookup finds declaration 2 (not the governing 1), which
+   reports the same errors -/
+example : LocalErr wVal (fun _ => some 2) (fun _ => none) 1 0 wDoc ∧ ¬ Local wVal (fun _ => some 2) (fun _ => none) 1 0 wDoc := by
+  constructor
+  · intro p hp
+    simp [chunkPairs, chunkPairsF, wDoc] at hp
+    rcases hp with rfl | rfl <;> rfl
+  · intro h
+    have := h ([0], some 1, .node 1 "a" [] []) (by simp [chunkPairs, chunkPairsF, wDoc, wVal])
+    simp [lazyPick] at this
 
 /-- FULL statement wanted by the property: `lazyErrors … = eagerErrors …` (same order).  False for the
     driver as it is, even when every chunk is validated locally: errors of the root come after the
